@@ -17,7 +17,7 @@ ADDR_PATS = ["10.0.0.0/8", "10.1.2.0/24", "10.1.2.3", "10.1.*", "10.1.2.*", "10.
              "10.1.2.2/31", "10.1.2.0/23", "2001:db8::/33", "2001:db8:8000::/33", "2001:db8:1::5/128", "10.1.3.0/24", "11.0.0.0/8", "2001:db8:1:0:0:0:0:4/126",
              "10.1.2.3/32", "10.1.2.128/25", "2001:db8::/16", "2001:*"]
 USER_PATS = ["~*", "joe", "j?e", "*", "~joe", "?*", "root"]
-HOST_PATS = ["*.example.org", "host?.net", "*", "a.example.org", "*.net", "host??.net"]
+HOST_PATS = ["*.example.org", "host?.net", "*", "a.example.org", "*.net", "host??.net", "?*", "*.*", "10.*", "*:*", "2001:*"]
 IPS = ["10.1.2.3", "10.1.3.3", "10.2.0.1", "11.0.0.1", "10.1.2.130", "10.1.2.2", "2001:db8::1", "2001:db8:1::5", "2001:db9::1", "2001:db8:8000::1", "2001:db8:1::6", "2001:dbf::9"]
 IDENTS = ["joe", "~joe", "jae", None, "~x", "root"]
 HOSTS = ["a.example.org", "host1.net", "host22.net", None, "b.example.org.", "HOST1.NET"]
@@ -67,10 +67,38 @@ def probe(s, rng, cid, rules):
            {"t": "nick", "id": cid, "name": "n%d" % cid},
            {"t": "userinfo", "id": cid, "user": user, "real": "Real Name"}]
     rng.shuffle(evs)
-    if rng.random() < 0.8:
+    if rng.random() < 0.15:
+        # re-query history: password first, the login-type services answer OK, a second password re-asks them,
+        # the rest of the data arrives and the client is accepted by its timeout while the repeat query is in progress
+        s.do({"t": "password", "id": cid, "text": "+x %s pw" % (acct or "someone").split(":")[0]})
+        st = s.open.get(cid)
+        for sv in sorted(st["awaiting"]) if st else []:
+            if cid in s.open:
+                s.do({"t": "reply", "svc": sv, "tag": s.open[cid]["tag"], "text": ("OK " + acct) if (acct and rng.random() < 0.5) else "OK"})
+        if cid in s.open:
+            s.do({"t": "password", "id": cid, "text": "+x %s pw2" % (acct or "someone").split(":")[0]})
+        for ev in evs:
+            if cid in s.open:
+                s.do(ev)
+        if cid in s.open and rng.random() < 0.8:
+            s.do({"t": "timeout", "id": cid})
+    elif rng.random() < 0.8:
         evs.insert(rng.randrange(len(evs) + 1), {"t": "password", "id": cid, "text": "+x %s pw" % (acct or "someone").split(":")[0]})
     for ev in evs:
         s.do(ev)
+        if cid not in s.open:
+            return
+    # sometimes the request timeout fires while services still owe an answer: the client is then
+    # accepted with queries in progress (an xreply_ok criterion naming such a service must not match)
+    early_timeout = rng.random() < 0.25
+    if early_timeout and cid in s.open:
+        if rng.random() < 0.5:
+            st = s.open.get(cid)
+            if st and st["awaiting"]:
+                sv = sorted(st["awaiting"])[0]
+                s.do({"t": "reply", "svc": sv, "tag": st["tag"], "text": "OK " + acct if acct else "OK"})
+        if cid in s.open:
+            s.do({"t": "timeout", "id": cid})
         if cid not in s.open:
             return
     # answer the services: OK / OK acct / unlinked / junk
@@ -90,6 +118,12 @@ def probe(s, rng, cid, rules):
         else:
             text = "AGAIN try later"
         s.do({"t": "reply", "svc": sv, "tag": st["tag"], "text": text})
+    if cid in s.open and rng.random() < 0.2:
+        # a second password re-asks the login-type services; the client is then accepted by its timeout
+        # while the repeat query is in progress (a service that already said OK still counts as OK)
+        s.do({"t": "password", "id": cid, "text": "+x %s pw2" % (acct or "someone").split(":")[0]})
+        if cid in s.open and rng.random() < 0.7:
+            s.do({"t": "timeout", "id": cid})
     if cid in s.open:
         s.do({"t": "hurry", "id": cid})
     st = s.open.get(cid)
